@@ -30,8 +30,9 @@ FLOORS = {"crash_points_with_two_instances": 300, "two_instances:crashed_instanc
 SHARDS = {"quick": 16, "thorough": 16}
 TECHNIQUE = "crash-point enumeration with differential oracle against the crash-free run + bounded-progress monitor + worker request log"
 LEVEL_TEXT = ("Every between-step crash point and every engine broker operation of each baseline run is turned into a crash + restart through the real start-up path; outcome "
-              "preservation, request exactly-once and bounded termination are checked for each. Held = every crash point preserved the outcome / lost nothing, up to the listed findings "
-              "(three recovery mechanisms keyed on the redelivered flag).")
+              "preservation, request exactly-once and bounded termination are checked for each; the between-step enumeration is repeated with two instances on the shared queue of which either dies. Held = every crash point preserved the "
+              "outcome / lost nothing, up to the listed findings (recovery mechanisms keyed on the redelivered flag, the termination protocol's early acknowledgements and the "
+              "take-over of a shared-queue event by another instance).")
 LEVEL_NOTE = "crash = loss of all volatile engine state and timers + connection drop; what survives is what the broker and the configured store keep"
 DESIGN_REF = "DESIGN.md section 6, C04"
 
